@@ -207,7 +207,7 @@ def check_float_writer(ctx, c, body, who):
     the verdict.  Independent of how the tests are arranged (if-chain, early return, helper returning Option<&str>)."""
     from .. import minterp
     I = minterp.Interp(ctx.F, c, inline=lambda d_, rid: rid != body.id and rid.startswith("conjure_serde::"), max_depth=3)
-    cases = [("NaN", float("nan"), "NaN"), ("inf", float("inf"), "Infinity"), ("-inf", float("-inf"), "-Infinity"), ("finite", 1.5, None), ("finite", -0.0, None), ("finite", 1e300, None)]
+    cases = [("NaN", float("nan"), "NaN"), ("NaN", -float("nan"), "NaN"), ("inf", float("inf"), "Infinity"), ("-inf", float("-inf"), "-Infinity"), ("finite", 1.5, None), ("finite", -0.0, None), ("finite", 1e300, None)]
     bad, rows = [], []
     for label, v, spelling in cases:
         try:
@@ -261,11 +261,24 @@ def spelling_tables(c, body):
                         pairs.append((a_["str"], b_["float"]))
             if pairs:
                 out.append((it, sorted(pairs)))
+    # inline form: the (spelling, value) tuples are built in the body itself (array literal handed to a search helper)
+    inline = []
+    for x in [body] + c.closures_of(body):
+        for bb, j, s_ in x.stmts():
+            if s_["r"].get("agg") == "tuple" and len(s_["r"]["ops"]) == 2:
+                a_ = dt.resolve_const(x, s_["r"]["ops"][0]) or {}
+                b_ = dt.resolve_const(x, s_["r"]["ops"][1]) or {}
+                if "str" in a_ and "float" in b_:
+                    inline.append((a_["str"], b_["float"]))
+    if inline:
+        out.append((body.path + "::<inline table>", sorted(inline)))
     return out
 
 
 def check_float_reader(ctx, c, body, who, width, rule="R1.5"):
     """visit_str of a float visitor: 'NaN'/'Infinity'/'-Infinity' -> visit_fNN(NAN/INF/-INF)"""
+    if float_reader_table(ctx, c, body, who, width, rule):
+        return True
     cfg = CFG(body)
     seen = {}
     for bb, t in body.calls():
@@ -302,6 +315,65 @@ def check_float_reader(ctx, c, body, who, width, rule="R1.5"):
     ctx.check(set(seen) == set(SPELL.values()), rule, body.loc(), f"{who}|reader-complete",
               f"{who}: non-finite values produced {sorted(seen)}, expected NaN, inf, -inf", instance=f"{who}: three spellings read")
     return bool(seen)
+
+
+def float_reader_table(ctx, c, body, who, width, rule):
+    """the reader as a decision table: the function is evaluated (constant propagation through local helpers, classification
+    enums, combinators) with the text parameter set to each Conjure spelling and to other texts; the visit call it ends in
+    is the verdict.  Returns False when the code leaves the interpretable fragment (the path-based form is used instead)."""
+    from .. import minterp
+    F = ctx.F
+
+    def inject(ty, text, depth=0):
+        ty = strip_refs(ty) if ty else ty
+        if not ty or depth > 3:
+            return None
+        if ty.get("prim") == "str" or ty.get("adt") == "alloc::string::String":
+            return text
+        a = F.adt(ty.get("adt") or "")
+        if not a or not a.get("local"):
+            return None
+        if a["kind"] == "struct" and len(a["variants"][0]["fields"]) == 1:
+            v = inject(a["variants"][0]["fields"][0]["ty"], text, depth + 1)
+            return None if v is None else minterp.adt(ty["adt"], 0, [v])
+        if a["kind"] == "enum":
+            for vi, vr in enumerate(a["variants"]):
+                if len(vr["fields"]) == 1 and (strip_refs(vr["fields"][0]["ty"]) or {}).get("adt") == "alloc::string::String":
+                    return minterp.adt(ty["adt"], vi, [text])
+        return None
+    slot = None
+    for k in range(1, body.argc + 1):
+        if inject(body.local_ty(k), "x") is not None:
+            slot = k
+    if slot is None:
+        return False
+    crate_prefix = body.id.split("::")[0] + "::"
+    I = minterp.Interp(F, c, inline=lambda d_, rid: rid.startswith(crate_prefix) and rid != body.id, max_depth=4)
+    rows = []
+    try:
+        for text in list(SPELL) + ["x", "nan", "inf", "-inf", "infinity", ""]:
+            args = [("sym", f"a{k}") for k in range(1, body.argc + 1)]
+            args[slot - 1] = inject(body.local_ty(slot), text)
+            rows.append((text, I.run(body, args)))
+    except minterp.Unsupported:
+        return False
+
+    def fl(x):
+        return "NaN" if isinstance(x, float) and x != x else ("inf" if x == float("inf") else "-inf" if x == float("-inf") else x)
+    def visit_const(r):
+        is_visit = isinstance(r, tuple) and r and r[0] == "call" and r[1].split("::")[-1] in ("visit_f32", "visit_f64")
+        return is_visit, (fl(r[2][-1]) if is_visit and r[2] and isinstance(r[2][-1], float) else None)
+    if not any(visit_const(r)[1] is not None for text, r in rows):
+        return False     # not a non-finite float reader at all (a forwarding visitor): nothing to decide here
+    for text, r in rows:
+        is_visit, val = visit_const(r)
+        if text in SPELL:
+            ctx.check(is_visit and r[1].endswith(f"visit_{width}") and val == SPELL[text], rule, body.loc(), f"{who}|reads|{SPELL[text]}",
+                      f"{who}: the text {text!r} produces {minterp.show(I, r)[:80]}; expected visit_{width}({SPELL[text]})", instance=f"{who}: [{text!r}] -> visit_{width}({SPELL[text]})")
+        else:
+            ctx.check(val is None, rule, body.loc(), f"{who}|reads|other", f"{who}: the text {text!r} (not a Conjure spelling) produces the non-finite constant {val}", instance=f"{who}: other texts take the ordinary path")
+    ctx.ok(rule, body.loc(), f"{who}: three spellings read")
+    return True
 
 
 def adts_in_call_substs(t):
@@ -511,7 +583,7 @@ def run_end(ctx, c):
         if b.kind != "fn" or b.d.get("vis") != "pub":
             continue
         # the deserialize-then-end tail may live in a private helper shared by the entry points
-        b = inline.expand(c, b, depth=2, pred=lambda cb: cb.d.get("vis") != "pub")
+        b = inline.expand(c, b, depth=2, pred=lambda cb: cb.d.get("vis") != "pub", lower=True)
         des = [(bb, t) for bb, t in b.calls() if t["call"]["def"] == sw.DE + "Deserialize::deserialize"
                and ty_adt(t["call"]["substs"][1]) in entry_adts]
         if not des:
